@@ -1071,6 +1071,8 @@ def run(ctx):
         "NaN and infinite parameter values are outside the model (Q has neither); check() lets NaN through every comparison",
         "int fields are modelled over Z; values passed fit in 32 bits",
         "isInUse_ after a refused call is C10's subject and is not compared here",
+        "'accepted set = ranges' is a Prop-level reading of check() (coloquinte_ok transcribes the same test lists); 'before any placement work' holds by construction of the model's `enter` and is validated per run; "
+        "'without undefined behaviour' is expressible in Coq only for the four array[effort-1] reads and the unrepaired setNets asserts, elsewhere it is sanitizer-validated; place(int) has no model of its own; addNet has the refusal direction only",
         "net weights are small integers in the correspondence runs (exact floats)",
         "the work after an accepted parameter set (CWork) is not modelled in this property",
         "exp/log/round of the detailed-placer defaults are not modelled: the dumped table is (regenerated on every run)",
